@@ -4,6 +4,7 @@
 //
 // Extra ops (after the case id):
 //   atvs <vparent> t5:a1 t6:a2 ...      several ATVs mined as transactions of ONE VBK block -> id of that block
+//   mix <vparent> <bparent> <lastKnownBtc> <w>:<v> <t>:<a>...   ONE VBK block carrying a VTB and ATVs -> "<vbk id> <btc id>"
 //   altgen <a> <X>                      new ALT block a on X's tip whose body is exactly X's last generated PopData
 //                                       -> "parent=<a> ctx=.. vtbs=.. atvs=.."
 //   setlim maxvbk=.. maxvtb=.. maxatv=.. maxsize=..     change the ALT block limits of the running session
@@ -836,6 +837,8 @@ struct MpSession : public vw::Session {
     std::string r;
     if (t[0] == "atvs" && reg) {
       r = atvs(t);
+    } else if (t[0] == "mix" && reg) {
+      r = mix(t);
     } else if (t[0] == "altgen" && reg) {
       r = altgen(t);
     } else if (t[0] == "setlim" && reg) {
@@ -894,6 +897,55 @@ struct MpSession : public vw::Session {
       reg->names["id:" + vh::hex(aid.data(), aid.size())] = ids[i].first;
     }
     return reg->regVbk(blk->getHeader());
+  }
+
+  // mix <vparent> <bparent> <lastKnownBtc> <w>:<endorsed v> <t>:<a> [<t>:<a>...]
+  // ONE VBK block carrying a VTB (pop tx) AND ATVs (txs) -> "<vbk id> <btc id>"
+  std::string mix(const std::vector<std::string>& t) {
+    if (t.size() < 6 || !reg->vbk.count(t[1]) || !reg->btc.count(t[2]) || !reg->btc.count(t[3])) return "SKIP";
+    auto pw = t[4].find(':');
+    if (pw == std::string::npos) return "SKIP";
+    auto wid = t[4].substr(0, pw), ev = t[4].substr(pw + 1);
+    if (reg->vtb.count(wid) || !reg->vbk.count(ev)) return "SKIP";
+    std::vector<VbkTx> txs;
+    std::vector<std::pair<std::string, std::string>> ids;
+    for (size_t i = 5; i < t.size(); i++) {
+      auto p = t[i].find(':');
+      if (p == std::string::npos) return "SKIP";
+      auto tid = t[i].substr(0, p), aid = t[i].substr(p + 1);
+      if (reg->atv.count(tid) || !reg->alt.count(aid) || aid == "a0") return "SKIP";
+      const auto& e = reg->alt.at(aid);
+      PublicationData pub;
+      pub.payoutInfo = std::vector<uint8_t>{4, 5, 6, (uint8_t)i};
+      pub.identifier = params->alt.getIdentifier();
+      pub.header = e.block.toRaw();
+      const auto* prev = reg->ref.getBlockIndex(e.block.previousBlock);
+      auto cc = AuthenticatedContextInfoContainer::createFromPrevious(uint256(), prev, params->alt);
+      pub.contextInfo = SerializeToVbkEncoding(cc);
+      txs.push_back(reg->miner.createVbkTxEndorsingAltBlock(pub));
+      ids.emplace_back(tid, aid);
+    }
+    const auto& eb = reg->vbk.at(ev);
+    auto btctx = reg->miner.createBtcTxEndorsingVbkBlock(eb);
+    reg->tick();
+    auto* bb = reg->miner.mineBtcBlocks(1, *reg->bidx(t[2]), {btctx});
+    if (bb == nullptr) return "SKIP miner-rejected";
+    auto ptx = reg->miner.createVbkPopTxEndorsingVbkBlock(bb->getHeader(), btctx, eb, reg->btc.at(t[3]).getHash());
+    auto* blk = reg->miner.mineVbkBlocks(1, *reg->vidx(t[1]), txs, std::vector<VbkPopTx>{ptx});
+    if (blk == nullptr) { reg->sweep(); return "SKIP miner-rejected " + reg->regBtc(bb->getHeader()); }
+    auto v = reg->miner.createVTB(blk->getHeader(), ptx);
+    reg->vtb[wid] = v;
+    auto vid = v.getId();
+    reg->names["id:" + vh::hex(vid.data(), vid.size())] = wid;
+    for (size_t i = 0; i < txs.size(); i++) {
+      auto a = reg->miner.createATV(blk->getHeader(), txs[i]);
+      reg->atv[ids[i].first] = a;
+      reg->atvEndorsed[ids[i].first] = ids[i].second;
+      auto aid = a.getId();
+      reg->names["id:" + vh::hex(aid.data(), aid.size())] = ids[i].first;
+    }
+    reg->sweep();
+    return reg->regVbk(blk->getHeader()) + " " + reg->regBtc(bb->getHeader());
   }
 
   std::string altgen(const std::vector<std::string>& t) {
